@@ -26,11 +26,16 @@ Definition agrees15 (c : case) : bool :=
   | CaseStress _ _ _ bad => bad =? 0
   end.
 
-(* a Cancel that takes effect before the execution completes makes an execution under a retry policy report ErrExecutionCanceled *)
+(* a Cancel that takes effect before the execution completes makes an execution under a retry policy report
+   ErrExecutionCanceled.  When a Timeout policy of the composition also fires before the execution completes there are two
+   causes and the result names one of them (a Cancel() issued after the Timeout cancelled the attempt does not take effect
+   on it; a Timeout whose limit expires after the Cancel() while the function is still running reports ErrExceeded):
+   such runs are not judged here (the correspondence with the model still is). *)
 Definition c15_cancel_ok (q : request) (o : xobs) : bool :=
   match q_ext q with
   | Some (dt, EExecCanceled) =>
-      if x_start o + dt <? x_end o then
+      let tc := x_start o + dt in
+      if (tc <? x_end o) && negb (existsb (kind_is KTimeoutExceeded) (x_events o)) then
         match snd (x_out o) with Some EExecCanceled => true | _ => false end
       else true
   | _ => true
